@@ -34,7 +34,7 @@ def floor(tier):
 
 
 def cases(tier, rng):
-    n = 128 if tier == "quick" else 1600
+    n = 128 if tier == "quick" else 6000
     out = []
     for i in range(n):
         ptos = (0, 1, 1, 2, 2, 3) if tier == "thorough" else (0, 1, 1, 2, 3)
